@@ -188,43 +188,31 @@ func (l *CustomQueryListener) EnterRelationalExpression(ctx *RelationalExpressio
 	}
 }
 
-func (l *CustomQueryListener) EnterExpression(ctx *ExpressionContext) {
-	if l.expression.Len() > 0 {
-		l.expression.WriteString(" ")
-	}
-	l.expression.WriteString(ctx.GetText())
-}
-
-func (l *CustomQueryListener) ExitOrExpression(ctx *OrExpressionContext) {
-	if ctx.GetChildCount() > 1 {
-		var result strings.Builder
-		for i := 0; i < ctx.GetChildCount(); i++ {
-			child := ctx.GetChild(i).(antlr.ParseTree) //nolint:all
-			if child.GetText() == "||" {
-				result.WriteString(" || ")
-			} else {
-				result.WriteString(child.GetText())
-			}
-		}
-		l.expression.Reset()
-		l.expression.WriteString(result.String())
+// EnterQuery records the WHERE condition of the query itself (not the bodies of declared
+// predicates, nor nested sub-expressions).
+func (l *CustomQueryListener) EnterQuery(ctx *QueryContext) {
+	if ctx.Expression() != nil {
+		l.expression.WriteString(conditionText(ctx.Expression()))
 	}
 }
 
-func (l *CustomQueryListener) ExitAndExpression(ctx *AndExpressionContext) {
-	if ctx.GetChildCount() > 1 {
-		var result strings.Builder
-		for i := 0; i < ctx.GetChildCount(); i++ {
-			child := ctx.GetChild(i).(antlr.ParseTree) //nolint:all
-			if child.GetText() == "&&" {
-				result.WriteString(" && ")
-			} else {
-				result.WriteString(child.GetText())
-			}
+// conditionText renders a parse tree as the concatenation of its token texts, with the boolean
+// connectives set off by spaces. The result depends only on the token sequence, never on the
+// whitespace or line breaks of the input.
+func conditionText(tree antlr.Tree) string {
+	if terminal, ok := tree.(antlr.TerminalNode); ok {
+		switch text := terminal.GetText(); text {
+		case "||", "&&":
+			return " " + text + " "
+		default:
+			return text
 		}
-		l.expression.Reset()
-		l.expression.WriteString(result.String())
 	}
+	var result strings.Builder
+	for _, child := range tree.GetChildren() {
+		result.WriteString(conditionText(child))
+	}
+	return result.String()
 }
 
 func (l *CustomQueryListener) extractArguments(arguments []string) []Parameter {
